@@ -28,7 +28,7 @@ def pykey(key: List[dict]):
         if k["t"] == "i":
             out.append(int(k["a"]))
         elif k["t"] == "s":
-            out.append(slice(None if k["a"] < 0 else k["a"], None if k["b"] < 0 else k["b"]))
+            out.append(slice(None if k["a"] < 0 else k["a"], None if k["b"] < 0 else k["b"], None if k.get("c", 1) == 1 else k["c"]))
         else:
             out.append(list(k["idx"]))
     return tuple(out)
